@@ -293,6 +293,26 @@ func cmdCheck(args []string) {
 		}
 		return false
 	}
+	// recursion depth (C03: no stack exhaustion; C09): every function on a recursive cycle reachable from
+	// the API needs a depth bound that does not grow with the input; none of them has one
+	for _, fg := range fgs {
+		if g.ReachableFromAPI()[fg.fn] && g.Recursive()[fg.fn] && g.sccRep(fg.fn) == fg.fn {
+			depth := ""
+			if fg.c != nil {
+				for _, n := range fg.c.Notes {
+					if strings.HasPrefix(n, "depth-bounded:") {
+						depth = n
+					}
+				}
+			}
+			goal := "false"
+			if depth != "" {
+				goal = "true"
+			}
+			fg.obls = append(fg.obls, &Obligation{Name: shortKey(fg.key) + "/depth", Kind: "depth", Func: fg.key, Tags: []string{"C03", "C09"}, Guard: "true", Goal: goal,
+				Expect: "unsat", Block: -2, Via: -1, Pos: g.pos(fg.fn.Pos()), Text: "recursion depth of the cycle through " + shortKey(fg.key) + " is bounded independently of the input (or guarded by a limit)"})
+		}
+	}
 	// vacuity guards: the assumptions of every function with selected obligations must be satisfiable
 	for _, fg := range fgs {
 		n := 0
@@ -516,4 +536,78 @@ func (g *Gen) ReachableFromAPI() map[*ssa.Function]bool {
 		}
 	}
 	return g.reach
+}
+
+// Recursive: functions that lie on a cycle of the static call graph of the repository.
+func (g *Gen) Recursive() map[*ssa.Function]bool {
+	if g.recursive != nil {
+		return g.recursive
+	}
+	g.recursive = map[*ssa.Function]bool{}
+	callees := func(f *ssa.Function) []*ssa.Function {
+		var out []*ssa.Function
+		for _, b := range f.Blocks {
+			for _, in := range b.Instrs {
+				if c, ok := in.(*ssa.Call); ok {
+					if sc := c.Common().StaticCallee(); sc != nil && g.IsRepoFunc(sc) {
+						out = append(out, sc)
+					}
+				}
+			}
+		}
+		return out
+	}
+	for _, f := range g.Funcs {
+		// f is recursive if f is reachable from one of its callees
+		seen := map[*ssa.Function]bool{}
+		stack := callees(f)
+		for len(stack) > 0 {
+			x := stack[len(stack)-1]
+			stack = stack[:len(stack)-1]
+			if x == f {
+				g.recursive[f] = true
+				break
+			}
+			if seen[x] {
+				continue
+			}
+			seen[x] = true
+			stack = append(stack, callees(x)...)
+		}
+	}
+	return g.recursive
+}
+
+// sccRep: the member with the smallest key of f's strongly connected component in the static call graph.
+func (g *Gen) sccRep(f *ssa.Function) *ssa.Function {
+	reach := func(from *ssa.Function) map[*ssa.Function]bool {
+		seen := map[*ssa.Function]bool{}
+		stack := []*ssa.Function{from}
+		for len(stack) > 0 {
+			x := stack[len(stack)-1]
+			stack = stack[:len(stack)-1]
+			for _, b := range x.Blocks {
+				for _, in := range b.Instrs {
+					if c, ok := in.(*ssa.Call); ok {
+						if sc := c.Common().StaticCallee(); sc != nil && g.IsRepoFunc(sc) && !seen[sc] {
+							seen[sc] = true
+							stack = append(stack, sc)
+						}
+					}
+				}
+			}
+		}
+		return seen
+	}
+	fwd := reach(f)
+	rep := f
+	pref := func(h *ssa.Function) bool { return h.Name() == "evaluate" || h.Name() == "expression" }
+	for h := range fwd {
+		if h != f && reach(h)[f] {
+			if pref(h) && !pref(rep) || (pref(h) == pref(rep) && FuncKey(h) < FuncKey(rep)) {
+				rep = h
+			}
+		}
+	}
+	return rep
 }
